@@ -122,11 +122,12 @@ static void init_levels() {
   // scalar levels: all 16 combinations of BMI, BMI2, LZCNT, MOVBE on top of SSE2
   for (int m = 0; m < 16; m++) {
     CpuFeatures g = base_features();
-    std::string n = "gp";
-    if (m & 1) { g.add(Ext::kBMI); n += "_bmi"; }
-    if (m & 2) { g.add(Ext::kBMI2); n += "_bmi2"; }
-    if (m & 4) { g.add(Ext::kLZCNT); n += "_lzcnt"; }
-    if (m & 8) { g.add(Ext::kMOVBE); n += "_movbe"; }
+    // fixed-position names "gp-bBlm": b = BMI, B = BMI2, l = LZCNT, m = MOVBE, '_' = absent (so that fnmatch patterns can select a gate)
+    std::string n = "gp-____";
+    if (m & 1) { g.add(Ext::kBMI); n[3] = 'b'; }
+    if (m & 2) { g.add(Ext::kBMI2); n[4] = 'B'; }
+    if (m & 4) { g.add(Ext::kLZCNT); n[5] = 'l'; }
+    if (m & 8) { g.add(Ext::kMOVBE); n[6] = 'm'; }
     CpuFeatures hg = H(g);
     if (!(hg == g)) continue;
     g_glevels.push_back({n, g, 0});
@@ -615,7 +616,7 @@ static std::vector<std::string> forms_of(const std::string& kind, const std::str
   return {"d,a,b,c", "d=a", "d=b", "d=c", "a=b", "b=c", "a=c", "all", "cm", "d=a,cm"};   // "the fourth operand can be register, memory"
 }
 
-static int g_inputs_quick = 3, g_inputs_thorough = 10;
+static int g_inputs_quick = 3, g_inputs_thorough = 24;
 
 struct Filter { std::string op, form, lvl; int w = -1; };
 static Filter g_filter;
@@ -749,6 +750,68 @@ static void sweep_vec(Jit& jit, const char* kind, const std::vector<OpName<E>>& 
   }
 }
 
+// OpArray overloads of emit_2v / emit_2vi / emit_3v / emit_3vi / emit_4v: "UniCompiler fully understands `VecArray` so it
+// can be passed instead of a regular operand"; a shorter source array is cycled.  dst = [d0, d1], a = [a0, a1], b = [b0], c = [c0];
+// every destination element is an ordinary observation of the operation.
+static void sweep_arr(Jit& jit) {
+  struct A { const char* kind; const char* name; uint32_t op; uint32_t imm; };
+  const A ops[] = {
+    {"vv", "kNotU32", uint32_t(UniOpVV::kNotU32), 0}, {"vv", "kAbsI16", uint32_t(UniOpVV::kAbsI16), 0},
+    {"vvi", "kSrlU16", uint32_t(UniOpVVI::kSrlU16), 3}, {"vvi", "kSraI64", uint32_t(UniOpVVI::kSraI64), 17},
+    {"vvv", "kSubU8", uint32_t(UniOpVVV::kSubU8), 0}, {"vvv", "kCmpGtU32", uint32_t(UniOpVVV::kCmpGtU32), 0}, {"vvv", "kPacksI32_U16", uint32_t(UniOpVVV::kPacksI32_U16), 0},
+    {"vvvi", "kAlignr_U128", uint32_t(UniOpVVVI::kAlignr_U128), 5},
+    {"vvvv", "kMAddU32", uint32_t(UniOpVVVV::kMAddU32), 0},
+  };
+  for (auto& o : ops) for (auto& lvl : g_vlevels) {
+    if (!g_filter.op.empty() && g_filter.op != o.name) continue;
+    if (lvl.name != "sse2" && lvl.name != "sse41" && lvl.name != "avx2" && lvl.name != "avx512") continue;
+    int w = lvl.maxw;
+    std::string kind = o.kind;
+    CaseKey ck; ck.k = kind; ck.op = o.name; ck.form = "arr"; ck.lvl = lvl.name; ck.w = w; ck.imm = (kind == "vvi" || kind == "vvvi") ? (long long)o.imm : -1;
+    bool fused = false;
+    auto body = [&](UniCompiler& uc, x86::Compiler& cc, const x86::Gp& io) {
+      fused = uc.is_fmadd_fused();
+      Scaf s{cc, lvl, io};
+      VecWidth vw = VecWidth(w);
+      x86::Vec d0 = uc.new_vec_with_width(vw, "d0"), d1 = uc.new_vec_with_width(vw, "d1");
+      x86::Vec a0 = uc.new_vec_with_width(vw, "a0"), a1 = uc.new_vec_with_width(vw, "a1");
+      x86::Vec b0 = uc.new_vec_with_width(vw, "b0"), c0 = uc.new_vec_with_width(vw, "c0");
+      s.vload(a0, kOffA); s.vload(a1, kOffD0); s.vload(b0, kOffB); s.vload(c0, kOffC);
+      VecArray D(d0, d1), AA(a0, a1), B(b0), C(c0);
+      if (kind == "vv") uc.emit_2v(UniOpVV(o.op), D, AA);
+      else if (kind == "vvi") uc.emit_2vi(UniOpVVI(o.op), D, AA, o.imm);
+      else if (kind == "vvv") uc.emit_3v(UniOpVVV(o.op), D, AA, B);
+      else if (kind == "vvvi") uc.emit_3vi(UniOpVVVI(o.op), D, AA, B, o.imm);
+      else uc.emit_4v(UniOpVVVV(o.op), D, AA, B, C);
+      s.vstore(kOffDst, d0); s.vstore(kOffMem, d1);
+    };
+    g_ncompiled++;
+    Built b = jit.build(lvl, w, body);
+    if (!b.fn) { emit_fail(ck, b); continue; }
+    emit_variant(ck, b, true);
+    VMeta m = vmeta(kind, o.name);
+    vj::Rng r(vj::env_seed() * 7919u + fnv(o.name) + b.hash);
+    for (int k = 0; k < 3; k++) {
+      Io io; memset(io.b, 0xCD, sizeof(io.b));
+      gen_inputs(io, m, r, k, o.name);
+      fill_vec(io.b + kOffD0, m.lane, m.cls, r);
+      Io in = io;
+      int sig = run_guarded(b.fn, io.b);
+      int W = 16 << w;
+      for (int e = 0; e < 2; e++) {
+        vj::W wr; wr.beginObj(); wr.kv("t", "obs"); w_key(wr, ck); wr.kv("hash", (long long)b.hash).kv("sig", sig).kv("tag", e ? "e1" : "e0");
+        wr.bytes("a", in.b + (e ? kOffD0 : kOffA), W);
+        if (kind != "vv" && kind != "vvi") wr.bytes("b", in.b + kOffB, W);
+        if (kind == "vvvv") { wr.bytes("c", in.b + kOffC, W); wr.kv("fused", fused); }
+        uint8_t z[64] = {0}; wr.bytes("d0", z, W);
+        wr.bytes("out", io.b + (e ? kOffMem : kOffDst), W);
+        wr.endObj(); wr.emit(g_out); g_nobs++;
+      }
+    }
+    jit.release(b.fn);
+  }
+}
+
 #include "lib_uniops_gp.h"
 #include "lib_uniops_life.h"
 
@@ -789,11 +852,12 @@ int main(int argc, char** argv) {
     if (part == "vvv" || part == "vec") sweep_vec(jit, "vvv", kVVV);
     if (part == "vvvi" || part == "vec") sweep_vec(jit, "vvvi", kVVVI);
     if (part == "vvvv" || part == "vec") sweep_vec(jit, "vvvv", kVVVV);
+    if (part == "arr" || part == "misc") sweep_arr(jit);
     if (part == "gp") sweep_gp(jit);
     if (part == "cond") sweep_cond(jit);
     if (part == "mem") sweep_mem(jit);
     if (part == "misc") sweep_misc(jit);
-    if (part == "consts") sweep_consts();
+    if (part == "consts") { sweep_consts(); sweep_oparray(); }
     fclose(g_out);
     fprintf(stderr, "uniops %s: compiled=%llu variants=%llu records=%llu\n", part.c_str(), (unsigned long long)g_ncompiled, (unsigned long long)g_nvariants, (unsigned long long)g_nobs);
     return 0;
